@@ -47,6 +47,10 @@ def build_and_run(wt, mdir, readme, tag):
     cmd = ["gcc", "-O1", "-g", "-w", "-I" + os.path.join(wt, "include")] + DEFS + extra + \
           [os.path.join(mdir, f) for f in demo_src] + [os.path.join(wt, s) for s in srcs] + ["-lpthread", "-o", exe]
     rc, out = sh(cmd, wt)
+    if rc != 0 and srcs:
+        # sources named in the README only as "also compiles": retry header-only
+        cmd = [c for c in cmd if not any(c.endswith(x) for x in srcs)]
+        rc, out = sh(cmd, wt)
     if rc != 0:
         return None, "build failed: " + out[-800:], " ".join(cmd)
     try:
